@@ -612,6 +612,7 @@ Proof.
   intros HL R0. unfold lever.
   destruct (qzerob (nthq y 0 - nthq x 0)); red1; rauto.
   match goal with |- context [if negb ?b then _ else _] => destruct (negb b) end; red1; rauto.
+  match goal with |- context [if negb ?b then _ else _] => destruct (negb b) end; red1; rauto.
   change (R (set_flows c (capv (vscale (Fmol c * lever_sf x y) (fit (length (idx c)) y)) (molv c)) (ms m))).
   apply reach_set_flows; auto. intros H _ M p Hp. destruct (HL H) as (Y & F).
   apply cap_bubble; auto. apply lever_sf_01.
